@@ -393,7 +393,7 @@ def rule_D4(ctx):
         if d.endswith("BuildData::<Data>::new") or (last(d) == "new" and "BuildData" in d):
             args = call_args(n)
             if len(args) >= 3:
-                kinds = set(_classify(o) for o in body.origins(args[2]))
+                kinds = set(_classify(o) for o in deep.resolve(f, args[2]))
                 n_entry += 1
                 r.examine((f["path"], "entry", loc(n)), True, {"where": loc(n), "entry_index_origins": sorted(kinds)})
                 if kinds != {"jump_table_len"}:
@@ -402,7 +402,7 @@ def rule_D4(ctx):
         if n.get("k") == "Struct" and (n.get("def") or "").endswith("BuildData"):
             for fl in n["fields"]:
                 if fl["name"] == "jump_index":
-                    kinds = set(_classify(o) for o in body.origins(fl["e"]))
+                    kinds = set(_classify(o) for o in deep.resolve(f, fl["e"]))
                     n_entry += 1
                     r.examine((f["path"], "entry-lit", loc(n)), True, {"where": loc(n), "entry_index_origins": sorted(kinds)})
                     al = allow("pairing_exceptions.json").get(f["path"], {})
@@ -642,16 +642,49 @@ def end_loop_findings(f):
             if m.get("k") == "Continue" and not any("ForLoop" in e for e in exp):
                 pass
         # (b) every alternative in the body either pushes the entry or skips it because the identical pair is already there
+        body_of = Body(f)
         def has_push(e):
-            return any(id(x) in push_ids for x in walk(e))
-        def whole_eq(c):
-            for x in walk(c):
-                if x.get("k") == "Binary" and x.get("op") in ("==", "!="):
-                    projected = set(id(peel(y["e"])) for y in walk(x) if y.get("k") == "Field")
-                    for side in ("l", "r"):
-                        for y in walk(x[side]):
-                            if y.get("k") == "Path" and y.get("lid") in lids and id(y) not in projected:
-                                return True
+            return any(id(x) in push_ids for x in walk(e or {}))
+        def has_continue(e):
+            return any(x.get("k") == "Continue" and not any("ForLoop" in z for z in (x.get("exp") or [])) for x in walk(e or {}))
+        def whole_eq_bin(x):
+            """x is `a == b` / `a != b` where one side mentions the loop entry as a whole (not a projection of it)."""
+            projected = set(id(peel(y["e"])) for y in walk(x) if y.get("k") == "Field")
+            for side in ("l", "r"):
+                for y in walk(x[side]):
+                    if y.get("k") == "Path" and y.get("lid") in lids and id(y) not in projected:
+                        return True
+            return False
+        def bool_lit(e):
+            e = peel(e)
+            if e.get("k") == "Lit" and e["lit"].get("v") in (True, False, "true", "false"):
+                return str(e["lit"].get("v")).lower() == "true"
+            return None
+        def implies_identity(c, pol, depth=0):
+            """True when `c == pol` implies that the already-emitted last instruction equals this whole entry."""
+            if c is None or depth > 12:
+                return False
+            c = peel(c)
+            k = c.get("k")
+            if k == "Unary" and c.get("op") == "!":
+                return implies_identity(c["e"], not pol, depth + 1)
+            if k == "Binary" and c.get("op") in ("==", "!="):
+                return whole_eq_bin(c) and ((c["op"] == "==") == pol)
+            if k == "Binary" and c.get("op") in ("&&", "||"):
+                strong = (c["op"] == "&&") == pol  # conjunction that holds / disjunction that fails: every operand has that value
+                l, r_ = implies_identity(c["l"], pol, depth + 1), implies_identity(c["r"], pol, depth + 1)
+                return (l or r_) if strong else (l and r_)
+            if k == "Path" and c.get("res") == "local":
+                defs = body_of.defs.get(c["lid"], [])
+                return bool(defs) and all(d.get("k") not in ("Param", "ClosureParam", "Destructure", "Field") and implies_identity(d, pol, depth + 1) for d in defs)
+            if k == "Match" and c.get("src") == "Normal":
+                rows = [(bool_lit(a["body"]), a) for a in c["arms"]]
+                if any(v is None for v, _a in rows):
+                    return False
+                sel = [a for v, a in rows if v == pol]
+                return bool(sel) and all(a.get("guard") is not None and implies_identity(a["guard"], True, depth + 1) for a in sel)
+            if k == "Let":
+                return False
             return False
         for m in walk(arm["body"]):
             if m.get("k") == "Match" and m.get("src") == "Normal" and has_push(m):
@@ -659,10 +692,16 @@ def end_loop_findings(f):
                     if has_push(a["body"]):
                         continue
                     g = a.get("guard")
-                    if g is None or not whole_eq(g):
+                    if g is None or not implies_identity(g, True):
                         fnd.append(("skip-without-identity", loc(a["pat"]), "an end instruction is skipped at %s without the guard `already-emitted == this entry` on the whole (instruction, operand) pair" % loc(a["pat"])))
-            if m.get("k") == "If" and (has_push(m.get("then") or {}) != has_push(m.get("else") or {})):
-                if not whole_eq(m["cond"]):
+            if m.get("k") == "If":
+                t, e = m.get("then"), m.get("else")
+                skip_pol = None
+                if has_push(t) != has_push(e):
+                    skip_pol = has_push(e)  # the branch without the push is the skipping one: taken when cond == skip_pol
+                elif not has_push(t) and not has_push(e) and (has_continue(t) != has_continue(e)):
+                    skip_pol = has_continue(t)
+                if skip_pol is not None and not implies_identity(m["cond"], skip_pol):
                     fnd.append(("skip-without-identity", loc(m), "an end instruction is skipped at %s under a condition that does not compare the whole (instruction, operand) pair with the last instruction" % loc(m)))
     return fnd, len(loops)
 
